@@ -26,7 +26,7 @@ pub fn def() -> PropDef {
     PropDef {
         id: "C14",
         level: "model_checking",
-        rule: "explicit-state search over requests {open, open+sync, open+subscribe, close, set_sync on/off, insert, delete, get_exact, get_many, subscribe, unsubscribe, drop, import, insert_remote, sync_initial_message, sync_process_message, get_state} x two documents against the real SyncHandle and its actor thread; every history is executed twice: awaiting every reply before the next request, and pipelined (all requests enqueued back-to-back in order, replies collected afterwards); every reply must equal the reference model's reply after exactly the earlier requests; after the history shutdown must hand back a store equal to the model; canonical state = (get_state of both documents, entries, listed namespaces); since the actor is a single consumer of one FIFO queue, client concurrency is observable only as an enqueue order, so all merges of two clients' request sequences are among the enumerated histories; family S: every history of <= 2 (thorough 3) requests over a 10-request alphabet with a second client's stop request queued at every position among them, all enqueued back-to-back: every request is answered, the ones before the stop as the model says, the ones behind it with an error (get_many: its stream ends), the store handed back = the state before the stop; family A: the actor is stalled on a full one-slot subscriber channel, 1-2 (thorough 3) requests are queued and their futures dropped at once, then five observing requests are queued and the subscriber drained: replies and the store handed back reflect the abandoned requests; non-trivial = histories with at least two opens or a close/drop after an open",
+        rule: "explicit-state search over requests {open, open+sync, open+subscribe, close, set_sync on/off, insert, delete, get_exact, get_many, subscribe, unsubscribe, drop, import, insert_remote, sync_initial_message, sync_process_message (first message of a session, and a later one with progress handed in), get_state} x two documents against the real SyncHandle and its actor thread; every history is executed twice: awaiting every reply before the next request, and pipelined (all requests enqueued back-to-back in order, replies collected afterwards); every reply must equal the reference model's reply after exactly the earlier requests; after the history shutdown must hand back a store equal to the model; canonical state = (get_state of both documents, entries, listed namespaces); since the actor is a single consumer of one FIFO queue, client concurrency is observable only as an enqueue order, so all merges of two clients' request sequences are among the enumerated histories; family S: every history of <= 2 (thorough 3) requests over a 10-request alphabet with a second client's stop request queued at every position among them, all enqueued back-to-back: every request is answered, the ones before the stop as the model says, the ones behind it with an error (get_many: its stream ends), the store handed back = the state before the stop; family A: the actor is stalled on a full one-slot subscriber channel, 1-2 (thorough 3) requests are queued and their futures dropped at once, then five observing requests are queued and the subscriber drained: replies and the store handed back reflect the abandoned requests; non-trivial = histories with at least two opens or a close/drop after an open",
         assumptions: &[
             "async_channel is a linearizable FIFO and the actor a single consumer: concurrent clients reduce to enqueue orders",
             "drop_replica releases the caller's handle and then removes the document iff no handle remains (as the API layer defines it); the model mirrors that",
@@ -61,6 +61,9 @@ pub enum Req {
     SyncInitial(u8),
     /// process a (valid, entry-free) reconciliation message of a peer
     SyncProcess(u8),
+    /// a later message of a session that is already under way: the caller hands in the progress
+    /// (counters) of the earlier messages
+    SyncProcessLater(u8),
     GetState(u8),
     /// set a download policy: needs the document to exist (open or not); on a document that
     /// does not exist it fails and must change nothing
@@ -90,6 +93,7 @@ fn requests() -> Vec<Req> {
             Req::InsertRemote(d),
             Req::SyncInitial(d),
             Req::SyncProcess(d),
+            Req::SyncProcessLater(d),
             Req::GetState(d),
             Req::SetPolicy(d),
             Req::RegisterPeer(d),
@@ -248,7 +252,7 @@ fn model_step(m: &mut [Doc; 2], r: Req, step: usize) -> String {
                 PutOutcome::Superseded => err,
             }
         }
-        Req::SyncInitial(d) | Req::SyncProcess(d) => {
+        Req::SyncInitial(d) | Req::SyncProcess(d) | Req::SyncProcessLater(d) => {
             let doc = &m[d as usize];
             if doc.open() && doc.sync {
                 ok
@@ -368,14 +372,19 @@ fn issue<'a>(
                 .insert_remote(ns_id(d), remote_entry(d), PEER, ContentStatus::Missing)
                 .await),
             Req::SyncInitial(d) => res(h.sync_initial_message(ns_id(d)).await.map(|_| ())),
-            Req::SyncProcess(d) => {
+            Req::SyncProcess(d) | Req::SyncProcessLater(d) => {
                 // the opening message of an empty peer replica: a fingerprint, no entries
                 let msg = {
                     let mut peer = Sut::memory_with(&[d]);
                     peer.sync_initial(ns_id(d)).expect("initial")
                 };
+                let mut progress = iroh_docs::SyncOutcome::default();
+                if matches!(r, Req::SyncProcessLater(_)) {
+                    progress.num_recv = 3;
+                    progress.num_sent = 2;
+                }
                 res(h
-                    .sync_process_message(ns_id(d), msg, PEER, Default::default())
+                    .sync_process_message(ns_id(d), msg, PEER, progress)
                     .await
                     .map(|_| ()))
             }
